@@ -4,8 +4,8 @@
 Require Extraction.
 Require Import ExtrOcamlBasic.
 From Coq Require Import List NArith.
-From Skinny Require Import Bits SpecSkinny SpecMantis ModelCipher ModelCtr ModelCpu Api.
-Extraction "model.ml" step init_world byte_of_N N_of_byte
+From Skinny Require Import Bits SpecSkinny SpecMantis ModelCipher ModelCtr ModelCpu Api ModelArduino ArdApi.
+Extraction "model.ml" step init_world astep byte_of_N N_of_byte
   skinny128_enc skinny128_dec skinny64_enc skinny64_dec
   skinny128_tweaked_enc skinny128_tweaked_dec skinny64_tweaked_enc skinny64_tweaked_dec
   mantis_enc mantis_dec.
